@@ -86,10 +86,49 @@ def local_axes(rot: int) -> List[Tuple[int, int]]:
     return out
 
 
+SIDE_CORNERS = {"bottom": (0, 1, 2, 3), "top": (4, 5, 6, 7), "left": (4, 0, 3, 7), "right": (5, 1, 2, 6),
+                "front": (4, 5, 1, 0), "back": (7, 6, 2, 3)}
+PATCH_NAMES = ["inlet", "outlet", "walls", "roof", "floor", "a", "b", "zeta", "Alpha", "m1", "s_2", "interface", "cyc_half0",
+               "cyc_half1", "Z", "left", "right", "x9", "top", "bottomWall"]
+
+
+def merge_faces(case, c) -> List[Tuple[int, int, str, bool]]:
+    """faces of lattice cell c that lie on a merged interface: [(axis, canonical value 0/1 of that axis, patch name,
+    is the slave side)].  case["merges"] = [{"axis": a, "at": node-plane index, "master": "low"|"high",
+    "names": [master patch, slave patch]}]"""
+    out = []
+    ijk = cell_ijk(case["dims"], c)
+    for mg in case.get("merges") or []:
+        a, at = mg["axis"], mg["at"]
+        if ijk[a] == at - 1:
+            side = "low"
+        elif ijk[a] == at:
+            side = "high"
+        else:
+            continue
+        is_master = mg["master"] == side
+        out.append((a, 1 if side == "low" else 0, mg["names"][0 if is_master else 1], not is_master))
+    return out
+
+
+def cell_vertex_ids(case, c) -> List[Any]:
+    """ground-truth identity of the 8 corners of cell c (canonical order): the lattice node, and - for corners on a
+    face that carries the slave patch of a merged pair - the set of those slave patches (such corners get their own
+    copies, shared only among corners with the same set)"""
+    nodes = cell_nodes(case["dims"], c)
+    faces = merge_faces(case, c)
+    if not faces:
+        return nodes
+    ids = []
+    for k, n in enumerate(nodes):
+        slaves = tuple(sorted(name for a, val, name, is_slave in faces if is_slave and CANON[k][a] == val))
+        ids.append((n, slaves) if slaves else n)
+    return ids
+
+
 def lattice_families(case):
     """union-find over (cell, global dir) from shared lattice edges (ground truth, independent of the library)"""
-    dims = case["dims"]
-    hexes = [cell_nodes(dims, c) for c in case["cells"]]
+    hexes = [cell_vertex_ids(case, c) for c in case["cells"]]
     uf, edge_map = families(hexes)
     fam: Dict[Any, List[Tuple[int, int]]] = {}
     for (b, ax) in list(uf.parent):
@@ -114,7 +153,8 @@ def contact_labels(case) -> List[str]:
 
 
 @st.composite
-def lattice(draw, min_cells: int = 2, max_cells: int = 8, jitter: str = "maybe", widths_decades: float = 1.0):
+def lattice(draw, min_cells: int = 2, max_cells: int = 8, jitter: str = "maybe", widths_decades: float = 1.0,
+            merge: str = "no"):
     dims = draw(st.sampled_from([d for d in DIMS if d[0] * d[1] * d[2] >= min_cells]))
     ncell = dims[0] * dims[1] * dims[2]
     widths = [
@@ -143,7 +183,28 @@ def lattice(draw, min_cells: int = 2, max_cells: int = 8, jitter: str = "maybe",
         # the assembly sits far from the origin (geo-referenced coordinates): nothing may depend on that
         mag = draw(st.sampled_from([1e3, 1e5, 2e6]))
         case["offset"] = [mag * draw(st.sampled_from([1.0, -1.0, 0.0, 2.1])) for _ in range(3)]
+    if merge != "no" and (merge == "yes" or draw(st.booleans())):
+        case["merges"] = draw_merges(draw, case)
     return case
+
+
+def draw_merges(draw, case) -> List[Dict[str, Any]]:
+    """1-2 merged (master / slave) patch pairs on lattice planes that have cells on both sides; patch names are drawn
+    (they are labels: nothing may depend on them - e.g. through the iteration order of a set of names)"""
+    dims = case["dims"]
+    planes = []
+    for a in range(3):
+        for at in range(1, dims[a]):
+            low = [c for c in case["cells"] if cell_ijk(dims, c)[a] == at - 1]
+            high = [c for c in case["cells"] if cell_ijk(dims, c)[a] == at]
+            if low and high:
+                planes.append((a, at))
+    if not planes:
+        return []
+    chosen = draw(st.lists(st.sampled_from(planes), min_size=1, max_size=2, unique_by=lambda p: p[0]))
+    names = draw(st.lists(st.sampled_from(PATCH_NAMES), min_size=2 * len(chosen), max_size=2 * len(chosen), unique=True))
+    return [{"axis": a, "at": at, "master": draw(st.sampled_from(["low", "high"])), "names": names[2 * i:2 * i + 2]}
+            for i, (a, at) in enumerate(chosen)]
 
 
 def count_chop(draw, lo: int = 1, hi: int = 12) -> Dict[str, Any]:
@@ -428,8 +489,16 @@ def build(case, with_chops: bool = True) -> Built:
         else:
             op.add_side_edge(min(c1, c2), cb.Arc(point))
         b.arcs.append({"op": oi, "corners": [c1, c2], "point": point.tolist()})
+    for oi, (c, rot) in enumerate(zip(case["cells"], case["orient"])):
+        perm = ROT[rot]
+        for a, val, name, _is_slave in merge_faces(case, c):
+            side = [sd for sd, corners in SIDE_CORNERS.items() if all(CANON[perm[i]][a] == val for i in corners)]
+            assert len(side) == 1
+            b.ops[oi].set_patch(side[0], name)
     for op in b.ops:
         b.mesh.add(op)
+    for mg in case.get("merges") or []:
+        b.mesh.merge_patches(mg["names"][0], mg["names"][1])
     return b
 
 
